@@ -525,6 +525,15 @@ func drawSnippet(t *rapid.T, name string, e genEnv) []Op {
 				ops = append(ops, Op{K: "login", B: b, A: e.nAcct, Src: "pw", SA: e.nAcct})
 			}
 		}
+	case "mangle":
+		// realistic manglings of genuine mailed tokens (copy/paste accidents)
+		mut := pick(t, "mangle", "dot", "space", "ext", "crlf", "lead", "double", "std64", "trunc")
+		if c.Has("confirm") {
+			ops = append(ops, Op{K: "reconfirm", A: a}, Op{K: "confirm", B: b, A: a, Src: "cnftok", SA: a, Mut: mut, MA: rapid.IntRange(0, 80).Draw(t, "ma")})
+		}
+		if c.Has("recover") {
+			ops = append(ops, Op{K: "recstart", B: b, A: a}, Op{K: "recend", B: b, A: a, Src: "rectok", SA: a, Mut: mut, MA: rapid.IntRange(0, 80).Draw(t, "ma2"), S: pick(t, "pw", goodPWs...)})
+		}
 	case "settings":
 		// a fully authed owner (or somebody else) pokes at the 2FA settings
 		if !c.Has("auth") {
